@@ -5,6 +5,7 @@ import (
 	"fmt"
 	"runtime"
 	"runtime/debug"
+	"sync"
 	"time"
 
 	"github.com/cube2222/octosql/aggregates"
@@ -144,6 +145,16 @@ type Planned struct {
 
 // Env builds the physical environment root.go builds (file handlers included), with db as
 // database "m".
+var fmOnce sync.Once
+var fm map[string]physical.FunctionDetails
+
+// FunctionMap returns one shared functions.FunctionMap(): every call of the real one builds three
+// ristretto caches (goroutines + tickers that never end), which octosql itself does once.
+func FunctionMap() map[string]physical.FunctionDetails {
+	fmOnce.Do(func() { fm = functions.FunctionMap() })
+	return fm
+}
+
 func Env(db *DB) physical.Environment {
 	fileHandlers := map[string]func(ctx context.Context, name string, options map[string]string) (physical.DatasourceImplementation, physical.Schema, error){
 		"csv":     csv.Creator(','),
@@ -158,7 +169,7 @@ func Env(db *DB) physical.Environment {
 	}
 	return physical.Environment{
 		Aggregates: aggregates.Aggregates,
-		Functions:  functions.FunctionMap(),
+		Functions:  FunctionMap(),
 		Datasources: &physical.DatasourceRepository{
 			Databases:    databases,
 			FileHandlers: fileHandlers,
